@@ -7,15 +7,14 @@ Section Proofs.
 Variable decode : list N -> option msg.
 Variable method_kind : list N -> N.
 Variable req_ok : list N -> bool.
-Variable service : list N -> list N -> sres.
-Variable call_name call_req : list N.
+Variable service : list N -> list N -> option sres.
 
 Notation dispatch := (dispatch method_kind req_ok service).
 Notation body_phase := (body_phase decode method_kind req_ok service).
 Notation descriptor_ready := (descriptor_ready decode method_kind req_ok service).
 Notation feed := (feed decode method_kind req_ok service).
-Notation step := (step decode method_kind req_ok service call_name call_req).
-Notation run := (run decode method_kind req_ok service call_name call_req).
+Notation step := (step decode method_kind req_ok service).
+Notation run := (run decode method_kind req_ok service).
 Notation frames := (frames decode).
 Notation frames_f := (frames_f decode).
 
@@ -100,6 +99,24 @@ Proof.
   destruct cl; inversion H; subst; exact Hd.
 Qed.
 
+Lemma request_complete_dead cl r q res r' evs :
+  dead r = false -> request_complete cl true r q res = (r', evs) -> dead r' = false.
+Proof.
+  unfold request_complete. intros Hd H.
+  destruct (memN q (cancelled r)); [inversion H; subst; exact Hd|].
+  destruct (key_of q (requests r)); [|inversion H; subst; exact Hd].
+  destruct (send_msg _ _ _ _) as [[r1 e1] b1] eqn:E. inversion H; subst. cbn.
+  eapply send_msg_dead; eauto.
+Qed.
+
+Lemma supersede_dead cl r id r' evs :
+  dead r = false -> supersede cl true r id = (r', evs) -> dead r' = false.
+Proof.
+  unfold supersede. intros Hd H. destruct (lookup id (requests r)); [|inversion H; subst; exact Hd].
+  destruct (send_msg _ _ _ _) as [[r2 e2] b2] eqn:E. inversion H; subst. cbn.
+  eapply send_msg_dead; eauto.
+Qed.
+
 Lemma dispatch_dead cl r m r' evs :
   dead r = false -> dispatch cl true r m = (r', evs) -> dead r' = false.
 Proof.
@@ -110,8 +127,12 @@ Proof.
     + destruct (send_msg _ _ _ _) as [[r1 e1] b1] eqn:E. inversion H; subst.
       eapply send_msg_dead; eauto.
     + destruct (negb (req_ok (m_buf m))); [inversion H; subst; exact Hd|].
-      destruct (send_msg _ _ _ _) as [[r1 e1] b1] eqn:E. inversion H; subst.
-      eapply send_msg_dead; eauto.
+      destruct (supersede cl true r (m_id m)) as [r1 evs1] eqn:E1.
+      apply supersede_dead in E1; [|exact Hd].
+      destruct (service (m_name m) (m_buf m)) as [res|].
+      * destruct (request_complete _ _ _ _ _) as [r3 evs3] eqn:E3. inversion H; subst.
+        eapply request_complete_dead; [|exact E3]. exact E1.
+      * inversion H; subst. exact E1.
   - destruct (resp_outcome m) as [o|].
     + unfold handle_response in H. destruct (lookup _ _); inversion H; subst; exact Hd.
     + destruct (m_type m =? STREAM_REQUEST); [|inversion H; subst; exact Hd].
@@ -285,8 +306,8 @@ Proof.
 Qed.
 
 
-Lemma call_method_dead cl r r' evs :
-  dead r = false -> call_method call_name call_req cl true r = (r', evs) ->
+Lemma call_method_dead cl st nm rq r r' evs :
+  dead r = false -> call_method cl true st nm rq r = (r', evs) ->
   dead r' = false /\ dispatched evs = [].
 Proof.
   intros Hd H. pose proof H as H2. apply call_method_events in H2. apply rpc_only_dispatched in H2.
@@ -294,6 +315,7 @@ Proof.
   unfold call_method in H.
   destruct (send_msg _ _ _ _) as [[r2 evs2] b] eqn:Es.
   apply send_msg_dead in Es; [|exact Hd].
+  destruct st; [inversion H; subst; exact Es|].
   destruct (negb b); [inversion H; subst; exact Es|].
   destruct (lookup _ _); inversion H; subst; exact Es.
 Qed.
@@ -310,13 +332,19 @@ Proof.
     destruct (run f1 r1 ops) as [[f2 r2] evs2] eqn:Er.
     inversion H; subst f2 r2 evs; clear H.
     unfold stream. cbn [flat_map]. fold (stream ops).
-    destruct o as [bs ok|ok]; cbn in Ho; subst ok; cbn [Model.step op_bytes] in Es |- *.
+    destruct o as [bs ok|st nm rq ok|q res ok]; cbn in Ho; subst ok; cbn [Model.step op_bytes] in Es |- *.
     + apply feed_resume in Es; auto. destruct Es as (D1 & F1 & R1).
       apply IH in Er; auto. destruct Er as [F2 R2]. split; [exact F2|].
       intros fut. rewrite <- app_assoc, R1, R2.
       unfold dispatched. rewrite flat_map_app, app_assoc. reflexivity.
-    + destruct (call_method _ _ _ _ _) as [r1' evs1'] eqn:Ec. inversion Es; subst f1 r1 evs1; clear Es.
+    + destruct (call_method _ _ _ _ _ _) as [r1' evs1'] eqn:Ec. inversion Es; subst f1 r1 evs1; clear Es.
       apply call_method_dead in Ec; [|exact Hd]. destruct Ec as [D1 E1].
+      apply IH in Er; auto. destruct Er as [F2 R2]. split; [exact F2|].
+      intros fut. cbn [app]. rewrite R2.
+      unfold dispatched in *. rewrite flat_map_app, E1. reflexivity.
+    + destruct (request_complete _ _ _ _ _) as [r1' evs1'] eqn:Ec. inversion Es; subst f1 r1 evs1; clear Es.
+      pose proof Ec as E1. apply request_complete_events in E1. apply rpc_only_dispatched in E1.
+      apply request_complete_dead in Ec; [|exact Hd].
       apply IH in Er; auto. destruct Er as [F2 R2]. split; [exact F2|].
       intros fut. cbn [app]. rewrite R2.
       unfold dispatched in *. rewrite flat_map_app, E1. reflexivity.
